@@ -6028,7 +6028,8 @@ class FlowIRConcrete(object):
     def invalidate_cache_for_component(self, comp_id):
         # VV: The name of the component is text, not a regular expression: it must match itself even if it
         #     contains characters such as `+` or `(`
-        self._cache.invalidate_reg_expression(r'component:.*:stage%s:%s' % (
+        #     (?s): the platform part of the label may be any text, including a line break
+        self._cache.invalidate_reg_expression(r'(?s)component:.*:stage%s:%s' % (
             comp_id[0], re.escape(str(comp_id[1]))))
 
     def update_component(self, comp_id, new_flowir):
